@@ -753,3 +753,64 @@ func (p *Program) writesGlobals(f *ssa.Function) bool {
 	}
 	return walk(f)
 }
+
+// factJustified checks that a fact is established by a verified function of the same property.
+func (p *Program) factJustified(fact string, prop string) string {
+	for _, fc := range p.contracts.Funcs {
+		for _, e := range fc.Establishes {
+			if e == fact {
+				if fc.Trusted != "" {
+					return "fact " + fact + " is established by a trusted (unverified) function"
+				}
+				if !hasProp(fc.Props, prop) {
+					return "fact " + fact + " is established by " + fc.Key + " which is not checked under " + prop
+				}
+				return ""
+			}
+		}
+	}
+	return "fact " + fact + " is not established by any function"
+}
+
+// checkWriters verifies the `writers GLOBAL: funcs` directives by a scan of the SSA: stores whose
+// address is rooted at the global may occur only in the listed functions.
+func (p *Program) checkWriters(prop string) *Unit {
+	if len(p.contracts.Writers) == 0 {
+		return nil
+	}
+	var errs []string
+	for gname, allowed := range p.contracts.Writers {
+		parts := strings.SplitN(gname, ".", 2)
+		sp := p.byShort[parts[0]]
+		if sp == nil {
+			continue
+		}
+		g, _ := sp.Members[parts[1]].(*ssa.Global)
+		if g == nil {
+			errs = append(errs, "writers: no global "+gname)
+			continue
+		}
+		ok := map[string]bool{}
+		for _, a := range allowed {
+			ok[a] = true
+		}
+		for name, fn := range p.funcs {
+			if ok[name] {
+				continue
+			}
+			for _, b := range fn.Blocks {
+				for _, in := range b.Instrs {
+					for _, op := range in.Operands(nil) {
+						if *op == ssa.Value(g) && !readOnlyUse(in, g) {
+							errs = append(errs, fmt.Sprintf("%s is written (or its address escapes) in %s", gname, name))
+						}
+					}
+				}
+			}
+		}
+	}
+	if len(errs) == 0 {
+		return nil
+	}
+	return &Unit{Name: "writers-scan", Kind: "lemma", Props: []string{prop}, VC: newVC("writers"), Err: strings.Join(errs, "; ")}
+}
